@@ -735,6 +735,11 @@ func (repo *GoGitRepo) UpdateRef(ref string, hash Hash) error {
 
 // RemoveRef will remove a Git reference
 func (repo *GoGitRepo) RemoveRef(ref string) error {
+	// go-git removes a packed ref by rewriting the packed-refs file (read, write a copy, rename):
+	// concurrent removals would lose each other's update and bring refs back
+	repo.rMutex.Lock()
+	defer repo.rMutex.Unlock()
+
 	return repo.r.Storer.RemoveReference(plumbing.ReferenceName(ref))
 }
 
